@@ -35,12 +35,98 @@ class Undecided(Exception):
 
 
 # ------------------------------------------------------------------ template parsing
+def import_unit_vocabulary(unit_name, lemmas, already):
+    """`//@ import <unit> [lemmas=a,b]`: the hand-written specification vocabulary of another unit (spec functions, types,
+    shim impls) without its takes; its proof functions are dropped, except the named lemmas, which are emitted as
+    external_body declarations (assumed here, PROVED in the home unit, which becomes a dependency of this unit)."""
+    path = os.path.join(UNITS, unit_name + ".vrs")
+    if not os.path.exists(path):
+        raise Undecided(f"import of missing unit {unit_name}")
+    raw = open(path).read().split("\n")
+    # 1. drop directives, take blocks, the file frame
+    lines, in_take = [], False
+    for i, l in enumerate(raw, 1):
+        if re.match(r"\s*//@\s*take\b", l):
+            in_take = True
+            continue
+        if re.match(r"\s*//@\s*end\b", l):
+            in_take = False
+            continue
+        if in_take or re.match(r"\s*//@", l):
+            continue
+        if l.startswith("use vstd") or l.strip() in ("verus! {", "} // verus!", "fn main() {}"):
+            continue
+        lines.append((f"units/{unit_name}.vrs:{i}", l))
+    # 2. proof functions: drop, or keep the header as an assumed lemma
+    out, i, used = [], 0, set()
+    defined = set(re.findall(r"\bfn\s+(\w+)", already)) | set(re.findall(r"\b(?:type|struct|enum)\s+(\w+)", already))
+    while i < len(lines):
+        origin, l = lines[i]
+        m = re.match(r"(\s*)(?:pub\s+)?(?:broadcast\s+)?proof\s+fn\s+(\w+)", l)
+        top = re.match(r"(?:pub\s+)?(?:open\s+|closed\s+|uninterp\s+)?(?:spec|proof)\s+fn\s+(\w+)|pub\s+type\s+(\w+)", l)
+        if m:
+            # header: up to the line on which the body opens (first line whose text starts with `{`, or a `{` ending the fn line)
+            j = i
+            while j < len(lines) and not (lines[j][1].strip().startswith("{") or (j == i and re.search(r"\)\s*\{", lines[j][1]) and "ensures" not in lines[j][1] and "requires" not in lines[j][1])):
+                j += 1
+            if j >= len(lines):
+                raise Undecided(f"import {unit_name}: cannot find the body of proof fn {m.group(2)}")
+            header = [x[1] for x in lines[i:j]]
+            first = lines[j][1]
+            if not first.strip().startswith("{"):
+                header.append(first[:first.index("{", first.index(")"))])
+                rest_first = first[first.index("{", first.index(")")):]
+            else:
+                rest_first = first
+            depth, k, txt = 0, j, rest_first
+            while True:
+                depth += txt.count("{") - txt.count("}")
+                if depth <= 0:
+                    break
+                k += 1
+                if k >= len(lines):
+                    raise Undecided(f"import {unit_name}: unbalanced braces in proof fn {m.group(2)}")
+                txt = lines[k][1]
+            if m.group(2) in lemmas and not (m.group(1) == "" and m.group(2) in defined):
+                used.add(m.group(2))
+                out.append((origin, m.group(1) + "#[verifier::external_body]"))
+                for h in header:
+                    out.append((origin, h))
+                out.append((origin, m.group(1) + "{ } // assumed here, proved in unit " + unit_name))
+            i = k + 1
+            continue
+        if top and (top.group(1) or top.group(2)) in defined:
+            # already defined by this unit's own includes: skip the whole item (to the end of its balanced braces / `;`)
+            depth, k = 0, i
+            while True:
+                t = lines[k][1]
+                depth += t.count("{") - t.count("}")
+                if depth <= 0 and (t.rstrip().endswith("}") or t.rstrip().endswith(";")):
+                    break
+                k += 1
+                if k >= len(lines):
+                    break
+            i = k + 1
+            continue
+        out.append((origin, l))
+        i += 1
+    missing = set(lemmas) - used
+    if missing:
+        raise Undecided(f"import {unit_name}: lemmas not found: {sorted(missing)}")
+    return out
+
+
 def read_template(path, seen=None):
-    """returns list of (origin, text) lines with //@ include expanded"""
+    """returns list of (origin, text) lines with //@ include and //@ import expanded"""
     seen = seen or []
     out = []
     with open(path) as f:
         for i, line in enumerate(f.read().split("\n"), 1):
+            mi = re.match(r"\s*//@\s*import\s+(\w+)(?:\s+lemmas=(\S+))?", line)
+            if mi:
+                lem = [x for x in (mi.group(2) or "").split(",") if x]
+                out.extend(import_unit_vocabulary(mi.group(1), lem, "\n".join(x[1] for x in out)))
+                continue
             m = re.match(r"\s*//@\s*include\s+(\S+)", line)
             if m:
                 inc = os.path.join(VERIF, m.group(1))
@@ -663,7 +749,7 @@ def units_for(prop):
     while changed:
         changed = False
         for p in list(out):
-            for dep in re.findall(r"stub=(\w+)", open(p).read()):
+            for dep in re.findall(r"stub=(\w+)", open(p).read()) + re.findall(r"//@\s*import\s+(\w+)", open(p).read()):
                 dp = os.path.join(UNITS, dep + ".vrs")
                 if not os.path.exists(dp):
                     raise Undecided(f"{os.path.basename(p)}: stub refers to missing unit {dep}")
